@@ -8,6 +8,7 @@
      fixes/c08-13-tt1-control-tlv-length.diff      control TLVs with a value length other than 3 are ignored
      fixes/c08-14-tt1-segment-range.diff           nothing is addressable beyond segment 15 (2048 bytes)
      fixes/c08-17-tt1-read-all-without-header-rom.diff  a RALL response without header ROM is a failed read (em = [])
+     fixes/c08-18-tt1-memory-reader-rereads.diff   RALL and READ8 are issued once: the image only grows (Model/TagLoad.v)
      fixes/c08-15-tt1-ndef-tlv-exceeds-data-area.diff, fixes/c08-16-tt2-ndef-tlv-exceeds-data-area.diff
                                                    an NDEF TLV is only reported when tag, length field and
                                                    value lie inside the data area and the value is not longer
@@ -129,7 +130,7 @@ Definition t2_cmds_max (d : Z) : Z := (d + 15) / 16 + 2 * (d / 1024) + 3.
    behind reserved bytes that follow a position below [dend]; its value is at most 65535 bytes long and skips
    reserved bytes; there are at most 256 reserved bytes per control TLV and, below [dend], at most one control
    TLV per 5 bytes *)
-Definition t2_demand_bound (dend : Z) : Z := dend + 65541 + 512 * ((dend - 16) / 5 + 1).
+Definition t2_demand_bound (dend : Z) : Z := dend + 65541 + 256 * ((dend - 16) / 5 + 1).
 
 (* ------------------------------------------------------------ Type 1 *)
 Definition t1_dispatch_any (skip : ranges) (t l : Z) (v : list Z) : res tlv_action :=
@@ -167,31 +168,45 @@ Fixpoint t1_walk_any (fuel : nat) (em : list Z) (size : Z) (skip : ranges) (off 
       end
   end.
 
-(* _read_ndef_data; [em0]: what RALL, READ8 (block 0Fh) and RSEG deliver; addresses from 2048 on do not
-   exist for the memory reader *)
+(* _read_ndef_data on the image [em] the memory reader can build (Model/TagLoad.v: RALL data of any length, block
+   0Fh, segments); [hr0] is header ROM byte 0 as delivered by RALL *)
+Definition t1_read_img (hr0 : Z) (em : list Z) : res (option layout) * Z :=
+  if negb (Z.shiftr hr0 4 =? 1) then (Ok None, 1) else
+  (* tag_memory[8], [9], [11], [10] in this order; the first one that cannot be loaded ends the read *)
+  match rd em 8 with
+  | Ok b8 =>
+    if negb (b8 =? 225) then (Ok None, 9) else
+    match rd em 9 with
+    | Ok b9 =>
+      if negb (Z.shiftr b9 4 =? 1) then (Ok None, 10) else
+      match rd em 11 with
+      | Ok b11 =>
+        match rd em 10 with
+        | Ok b10 =>
+          let size := (b10 + 1) * 8 in
+          let skip0 := [(104, if size =? 120 then 120 else 128)] in
+          match t1_walk_any (S (Z.to_nat size)) em size skip0 12 12 12 with
+          | (Ok None, d) => (Ok None, d)
+          | (Ok (Some (off, skip, v, hw)), d) =>
+            let L := {| l_off := off; l_skip := skip; l_cap := get_capacity size off skip;
+                        l_rd := Z.shiftr b11 4 =? 0; l_wr := Z.land b11 15 =? 0;
+                        l_val := v; l_dend := size; l_hw := hw |} in
+            (if tlv_fits em L then Ok (Some L) else Ok None, d)
+          | (Err e, d) => (Err e, d) | (Crash c, d) => (Crash c, d) | (Hang, d) => (Hang, d)
+          end
+        | _ => (Ok None, 11)
+        end
+      | _ => (Ok None, 12)
+      end
+    | _ => (Ok None, 10)
+    end
+  | _ => (Ok None, 9)
+  end.
+(* the same for a tag that answers RALL with 122 bytes, READ8 with 9 and RSEG with 129 bytes ([em0]: the memory;
+   nothing is addressable from 2048 on; fewer than 120 bytes: RALL failed) *)
 Definition t1_read_d (hr0 : Z) (em0 : list Z) : res (option layout) * Z :=
   let em := firstn 2048 em0 in
-  if len em <? 120 then (Ok None, 1)                 (* RALL failed *)
-  else if negb (Z.shiftr hr0 4 =? 1) then (Ok None, 1)
-  else
-    match rd em 8, rd em 9, rd em 10, rd em 11 with
-    | Ok b8, Ok b9, Ok b10, Ok b11 =>
-      if negb (b8 =? 225) then (Ok None, 9)
-      else if negb (Z.shiftr b9 4 =? 1) then (Ok None, 10)
-      else
-        let size := (b10 + 1) * 8 in
-        let skip0 := [(104, if size =? 120 then 120 else 128)] in
-        match t1_walk_any (S (Z.to_nat size)) em size skip0 12 12 12 with
-        | (Ok None, d) => (Ok None, d)
-        | (Ok (Some (off, skip, v, hw)), d) =>
-          let L := {| l_off := off; l_skip := skip; l_cap := get_capacity size off skip;
-                      l_rd := Z.shiftr b11 4 =? 0; l_wr := Z.land b11 15 =? 0;
-                      l_val := v; l_dend := size; l_hw := hw |} in
-          (if tlv_fits em L then Ok (Some L) else Ok None, d)
-        | (Err e, d) => (Err e, d) | (Crash c, d) => (Crash c, d) | (Hang, d) => (Hang, d)
-        end
-    | _, _, _, _ => (Ok None, 12)
-    end.
+  if len em <? 120 then (Ok None, 1) else t1_read_img hr0 em.
 Definition t1_read_any (hr0 : Z) (em0 : list Z) : res (option layout) := fst (t1_read_d hr0 em0).
 
 (* upper bound of the exchange() calls of Type1TagMemoryReader for demand [d] <= 2049: RALL, READ8 of block
